@@ -235,7 +235,7 @@ def in_process_pool(mods, record=None):
 
 
 def run_format_files(mods, d: Path, lib_src: str, client_src: str, passes: int, record=None, real_pool=False,
-                     preserved=("client.py",), extra_files=()):
+                     preserved=("client.py",), extra_files=(), relative=False):
     (d / "lib.py").write_text(lib_src)
     (d / "client.py").write_text(client_src)
     for name, text in extra_files:
@@ -245,6 +245,15 @@ def run_format_files(mods, d: Path, lib_src: str, client_src: str, passes: int, 
         if real_pool:
             mods["main"].format_files([d / "lib.py"], preserved_filenames=[d / p for p in preserved], n_cores=1,
                                       max_passes=passes)
+        elif relative:      # preserved files named relative to the working directory (API use)
+            cwd = os.getcwd()
+            os.chdir(d)
+            try:
+                with in_process_pool(mods, record):
+                    mods["main"].format_files([Path("lib.py")], preserved_filenames=[Path(p) for p in preserved],
+                                              n_cores=1, max_passes=passes)
+            finally:
+                os.chdir(cwd)
         else:
             with in_process_pool(mods, record):
                 mods["main"].format_files([d / "lib.py"], preserved_filenames=[d / p for p in preserved],
@@ -376,11 +385,12 @@ def check(run: common.Run):
     fcases = []
     other = "import lib\nprint(lib.unusedVar)\n"
     sel = pairs[:: (7 if quick else 1)]
-    for form, subset, c in sel:
+    for j, (form, subset, c) in enumerate(sel):
         for preserved, extra in ((("client.py",), ()), (("client.py", "other.py"), (("other.py", other),)),
                                  (("client.py", "lib.py"), ()), (("lib.py",), ())):
             rec = []
-            run_format_files(mods, tree, LIB, c, 1, record=rec, preserved=preserved, extra_files=extra)
+            run_format_files(mods, tree, LIB, c, 1, record=rec, preserved=preserved, extra_files=extra,
+                             relative=(j % 2 == 1))
             texts = {"client.py": c, "lib.py": LIB, "other.py": other}
             term = glist([f"({gname(p.replace('.py', ''))}, {t_pyfile(texts[p])})" for p in preserved])
             for fname, P in rec:
@@ -393,8 +403,8 @@ def check(run: common.Run):
     files += f; shards += s
 
     # ---- (c) the rules on the library with the preserve set a client induces (refinement)
-    rcases = []
-    for form, subset, c in pairs[:: (3 if quick else 1)]:
+    rcases, rule_errors = [], []   # the model's rules are total: a raise / unparsable output on this
+    for form, subset, c in pairs[:: (3 if quick else 1)]:     # seed-independent domain is a disagreement
         (tree / "client.py").write_text(c)
         P = sorted(mods["main"]._used_names_in_file(tree / "client.py"))
         for rule in k10.RULES:
@@ -403,6 +413,7 @@ def check(run: common.Run):
                 ast.parse(out)
             except Exception as e:  # noqa
                 hist[f"{rule}:raised:{type(e).__name__}"] += 1
+                rule_errors.append(("rule-raised", rule, P, LIB, f"{type(e).__name__}: {e}"[:200]))
                 continue
             hist[f"{rule}:{'changed' if out != LIB else 'same'}"] += 1
             if out != LIB:
@@ -415,6 +426,8 @@ def check(run: common.Run):
                     out = k10.run_rule(mods, rule, src, P)
                     ast.parse(out)
                 except Exception as e:  # noqa
+                    hist[f"{rule}:raised:{type(e).__name__}"] += 1
+                    rule_errors.append(("rule-raised", rule, sorted(P), src, f"{type(e).__name__}: {e}"[:200]))
                     continue
                 hist[f"{rule}:{'changed' if out != src else 'same'}"] += 1
                 rcases.append((k10.rule_case(rule, P, src, out, False), ("rule", rule, sorted(P), src, out, False)))
@@ -428,6 +441,7 @@ def check(run: common.Run):
                         ast.parse(out)
                     except Exception as e:  # noqa
                         hist[f"{rule}:raised:{type(e).__name__}"] += 1
+                        rule_errors.append(("rule-raised", rule, sorted(P), src, f"{type(e).__name__}: {e}"[:200]))
                         continue
                     hist[f"{rule}:dup:{'changed' if out != src else 'same'}"] += 1
                     if out != src:
@@ -438,7 +452,7 @@ def check(run: common.Run):
     files += f; shards += s
 
     results = common.run_case_files(files)
-    disagreements = []
+    disagreements = list(rule_errors[:3])
     for p, shard in zip(files, shards):
         rc, out = results[p]
         idx = common.parse_nat_list(out) if rc == 0 else None
